@@ -24,3 +24,9 @@ PROFILES.update({
     'C12': P(5000, 60, 300000, 1500),
     'C18': P(5000, 60, 200000, 1500),
 })
+
+import simcheck as _sc
+PROFILES.update({
+    'C13': P(6000, 60, 300000, 1500),
+    'C15': P(240, 120, 40000, 1800, custom=lambda prop, tier, seed: _sc.run_race_check(prop, tier, seed)),
+})
